@@ -27,7 +27,19 @@ Semantics of the subset (the translator's conventions; value-preserving in exact
     checks (`termination_by`/`decreasing_by`);
   * `np.inf` / `-np.inf` as the start of a running minimum / maximum is `none : Option α`; comparing a number with it is
     `SrcLib.ltTop` / `SrcLib.gtBot`; using it where a finite number is needed raises (the table's error);
-  * `int` values are `Int`, lengths and indices `Nat`; an `int` in float arithmetic is cast (`(n : α)`).
+  * `int` values are `Int`, lengths and indices `Nat`; an `int` in float arithmetic is cast (`(n : α)`); a float literal
+    (`1.0`) where Python needs an int is outside the subset;
+  * arrays, lists and records are read as VALUES, so ALIASING is refused: `y = x` on such a value is a Shape error, and an in-place
+    operation (`X[:, 1] = …`, `acc.append(e)`, `W[i].append(e)`, `params["k"] = v`) is read only on a name that OWNS its value (a
+    display, a comprehension, the result of a call -- `np.copy(x)` in particular, which is otherwise the identity --, the declared
+    in-out name of a region), never on a parameter, a loop variable or an element of a container;
+  * DEAD STORES are refused: the obligations hold up to definitional unfolding, which erases a `let` that nothing reads, so every
+    generated binding must be read (the reviewed exceptions of a target, `unread_ok`, are printed in its section and must match
+    exactly); a region in the middle of pinned text (`range_in`) may assign, among the names that also occur outside it, only
+    its declared result; the matrix regions may not assign `M`, `N` or anything the code after them reads (the matrix excepted);
+  * whether a state method ends in `return self` or returns `None` is fixed per target (`returns_self`);
+  * a binder is never spelled like an identifier of the Python function (SSA suffixes, made-up names) or like a helper /
+    generated definition that the text mentions unqualified.
 The TARGETS table (which region is read, binders, the attribute -> field map, which callee is which definition, the
 statements and proofs of the obligations, the reviewed skeleton texts) is fixed here and reviewed by hand; the definitions'
 bodies come from the source.
@@ -46,6 +58,7 @@ from fractions import Fraction
 
 from .py2lean import Shape, LEAN_RESERVED, dotted, lean_str, rat, unparse_with_holes, strip_doc, read_defaults, GEN
 from .py2lean import bindings_section, render_signature, signature_text, sanitize, not_translated, not_translated_comment
+from .py2lean import stored_names, names_outside, function_identifiers, reads_name
 
 
 # ----------------------------------------------------------------------------- types
@@ -114,9 +127,10 @@ class V:
     literal (adopts the type of its context); `const`: a Python truth value known at translation time; `shape`: the known
     shape of a list (`("nil",)` / `("cons", head, tail)`); `prop`: a condition that is a Prop (else Bool);
     `fn`/`base`: a column expression over the rows of the list `base`"""
-    def __init__(self, t, ty, p=100, c=None, lit=None, const=None, shape=None, prop=False, fn=None, base=None):
+    def __init__(self, t, ty, p=100, c=None, lit=None, const=None, shape=None, prop=False, fn=None, base=None, flt=False):
         self.t, self.ty, self.p, self.c, self.lit, self.const, self.shape, self.prop = t, ty, p, c, lit, const, shape, prop
         self.fn, self.base = fn, base
+        self.flt = flt                      # the literal was written as a float (`1.0`): it is not an `int` / a length
 
 
 def paren(v, minp):
@@ -210,6 +224,71 @@ def has_raise(n):
     raise Shape("internal: node")
 
 
+def check_live(n, allow):
+    """DEAD STORES (see py2lean.check_liveness): every generated binding -- a `let`, the variable of a `match` on a raising call
+    or on an `Option` -- must be read by what follows it; the names of those that are not are appended to `allow` and compared
+    with the target's reviewed `unread_ok` list (printed in the generated file) by `settle_unread`.  A store that outlives the translated statements (to a parameter, to `self` in a function that does
+    not return the state, to a name the pinned text around a region reads) and is placed after its last use there would
+    otherwise be a `let` that `rfl` / `simp only` erase."""
+    def body_reads(name, body):
+        # an occurrence `name := …` is the FIELD of a record update (`{ self with ps := e }`), not a read of the binding
+        pat = re.compile(r"(?<![\w.'])%s(?![\w'])(?!\s*:=)" % re.escape(name))
+        return any(pat.search(ln) for ln in render(body, "", True))
+    if isinstance(n, Let):
+        if not body_reads(n.name, n.body):
+            allow.append(n.name)
+        check_live(n.body, allow)
+    elif isinstance(n, LetNode):
+        if not body_reads(n.name, n.body):
+            allow.append(n.name)
+        check_live(n.inner, allow)
+        check_live(n.body, allow)
+    elif isinstance(n, Bind):
+        if not body_reads(n.var, n.body):
+            allow.append(n.var)
+        if not isinstance(n.scrut, str):
+            check_live(n.scrut, allow)
+        check_live(n.body, allow)
+    elif isinstance(n, MatchOpt):
+        if not body_reads(n.var, n.body):
+            allow.append(n.var)
+        check_live(n.body, allow)
+    elif isinstance(n, Guard):
+        check_live(n.body, allow)
+    elif isinstance(n, Ite):
+        check_live(n.a, allow)
+        check_live(n.b, allow)
+
+
+def settle_unread(found, cfg):
+    """the unread bindings of a target's definitions (`found`: Lean names, one entry per binding) must be EXACTLY the target's
+    reviewed list `unread_ok` (stores that are dead in the reviewed source as well; printed in the generated file)"""
+    if sorted(found) != sorted(cfg.get("unread_ok", ())):
+        extra = list(found)
+        for x in cfg.get("unread_ok", ()):
+            if x in extra:
+                extra.remove(x)
+        raise Shape("the value bound to %s is never read: a dead store (or a store that outlives the translated statements) is "
+                    "outside the subset (reviewed unread bindings of this target: %s)"
+                    % (", ".join("`%s`" % x for x in extra) or "(fewer bindings than reviewed)", list(cfg.get("unread_ok", ())) or "none"))
+
+
+def mutable_ty(ty):
+    """does a Python value of this type have identity that in-place operations can be observed through (array, list, record)?"""
+    if ty is None:
+        return False
+    if ty.k in "LRX":
+        return True
+    if ty.k == "P":
+        return mutable_ty(ty.a) or mutable_ty(ty.b)
+    if ty.k == "O":
+        return mutable_ty(ty.a)
+    return False
+
+
+FRESH_ID = ("np.copy",)          # conversions read as the identity whose RESULT is a new object (the copy owns its data)
+
+
 def atom(t):
     return t if re.match(r"^[\w.']+$", t) or (t.startswith("(") and t.endswith(")")) or (t.startswith("[") and t.endswith("]")) \
         else "(%s)" % t
@@ -261,6 +340,38 @@ def render(n, ind, raises):
 BIN = {ast.Add: ("+", 65), ast.Sub: ("-", 65), ast.Mult: ("*", 70), ast.Div: ("/", 70), ast.FloorDiv: ("/", 70)}
 
 
+def lean_spellings(cfg):
+    """identifiers that the generated text of a target may mention UNQUALIFIED (model helpers, generated definitions of the same
+    file and their loops, function parameters, constructors): a binder generated for a Python name is never spelled like one
+    (NAME CAPTURE: `colMin = …` in the source must not become `let colMin := …` in front of a call of the helper `colMin`)"""
+    words = set()
+
+    def scan(x):
+        if isinstance(x, str):
+            words.update(re.findall(r"[A-Za-z_][A-Za-z0-9_']*", x))
+        elif isinstance(x, dict):
+            for v in x.values():
+                scan(v)
+        elif isinstance(x, (list, tuple, set)):
+            for v in x:
+                scan(v)
+        elif isinstance(x, Ty):
+            scan(x.lean())
+    for key in ("calls", "mcalls", "methods", "setters", "consts", "mask_sub", "py_index", "fparams", "err", "index_err", "inf_err",
+                "div_guard", "raises_table", "fin", "top", "result"):
+        scan(cfg.get(key))
+    st = cfg.get("state") or {}
+    for d in (st.get("derived") or {}).values():
+        scan(d.get("lean"))
+        scan(d.get("err"))
+    for c in TARGETS:
+        if c["file"] == cfg["file"]:
+            words.add(c["lean"])
+            words.update("%s_loop%s" % (c["lean"], "" if i == 0 else "_%d" % (i + 1)) for i in range(9))
+    words.update(("some", "none", "PersimVerif", "Option", "Prod", "Int", "Nat", "Bool", "List", "Except", "decide", "id"))
+    return sorted(words)
+
+
 class StTr:
     def __init__(self, src, cls, cfg, aux, used=None):
         self.src, self.cls, self.cfg, self.aux = src, cls, cfg, aux
@@ -271,6 +382,9 @@ class StTr:
         self.derived = []                   # (attribute, lean text of the state variable, V) of derived attributes
         self.live_end = set()               # python names needed by whatever follows the translated statements
         self.nloops = 0
+        self.unread = []                    # Lean names of the generated bindings that nothing reads (shared with the loops)
+        self.avoid = set()                  # identifiers of the Python function: never the spelling of a suffixed / made-up binder
+        self.borrowed = set()               # python names whose (mutable) value is shared: a parameter, a loop variable, an element
 
     # --- names
     def fresh(self, py):
@@ -280,9 +394,18 @@ class StTr:
         if base == "_":
             base = "t"
         name, k = base, 0
-        while name in self.used:
+        while name in self.used or ((k > 0 or name != py) and name in self.avoid):
             k += 1
             name = "%s_%d" % (base, k)
+        self.used.add(name)
+        return name
+
+    def fresh_tmp(self, hint):
+        """a binder the translator makes up (`t`, `r`, `rest_`, …): never the spelling of an identifier of the Python function"""
+        name, k = hint, 0
+        while name in self.used or name in self.avoid or name in LEAN_RESERVED:
+            k += 1
+            name = "%s_%d" % (hint, k)
         self.used.add(name)
         return name
 
@@ -300,21 +423,23 @@ class StTr:
             node = w(node)
         return node
 
-    def opt_value(self, text, ty, err, hint="t"):
-        """the value inside `text : Option ty`; `none` raises `err`"""
-        var = self.fresh(hint)
+    def opt_value(self, text, ty, err, hint="t", py=False):
+        """the value inside `text : Option ty`; `none` raises `err`  (`py`: the hint is the Python name the value is bound to)"""
+        var = self.fresh(hint) if py else self.fresh_tmp(hint)
         self.hoist(lambda body, text=text, var=var, err=err: MatchOpt(text, var, err, body))
         return V(var, ty)
 
     def bind_value(self, text, ty, hint="t"):
         """the value a raising call returns"""
-        var = self.fresh(hint)
+        var = self.fresh_tmp(hint)
         self.hoist(lambda body, text=text, var=var: Bind(text, var, body))
         return V(var, ty)
 
     # --- coercions
     def cast(self, v, ty):
         if v.lit is not None:
+            if v.flt and ty.k in "ZN":
+                raise Shape("the float literal %s.0 where Python needs an int (a count, an index, an `int` value)" % v.t)
             if ty.k in "AZN":
                 return V(v.t, ty, v.p)
             if ty.k == "O" and ty.a.k in "AZN":
@@ -366,7 +491,7 @@ class StTr:
             q = Fraction(text)
             if q.denominator != 1:
                 raise Shape("float literal %s is not integral (the model writes numerals here)" % text)
-            return V(str(q.numerator), None, lit=int(q.numerator))
+            return V(str(q.numerator), None, lit=int(q.numerator), flt=True)
         raise Shape("literal %r" % (v,))
 
     def arith(self, op, a, b):
@@ -434,7 +559,10 @@ class StTr:
                 raise Shape("length test %s outside the subset" % ast.unparse(node))
             return V(None, B, const=table[key])
         if isinstance(op, ast.Eq) and a.ty == Lst(N) and b.ty == N:        # labels == label : the Boolean mask
-            return V("%s.map (fun x => x == %s)" % (paren(a, 100), b.t), Lst(B), 90)
+            saved = set(self.used)
+            x = self.fresh_tmp("x")                       # never the spelling of a name `b` may mention
+            self.used = saved
+            return V("%s.map (fun %s => %s == %s)" % (paren(a, 100), x, x, paren(b, 100)), Lst(B), 90)
         swap = isinstance(op, (ast.Gt, ast.GtE))
         if swap:
             a, b = b, a
@@ -777,7 +905,7 @@ class StTr:
     def materialise(self, v):
         """the list a column expression denotes"""
         saved = set(self.used)
-        r = self.fresh("r")
+        r = self.fresh_tmp("r")
         b = v.fn(V(r, v.base.ty.a))
         self.used = saved
         return V("%s.map (fun %s => %s)" % (paren(v.base, 100), r, b.t), Lst(b.ty), 90)
@@ -949,6 +1077,43 @@ class StTr:
         self.env[py] = nv
         return Let(name, ty.lean(), text, k())
 
+    def value_is_fresh(self, node):
+        """does the Python expression create a NEW object (so that the name it is assigned to owns it)?  Displays,
+        comprehensions, arithmetic and calls do; a name, a subscript, an attribute read, a conversion read as the identity
+        (other than a copy) hand on an existing one"""
+        if isinstance(node, (ast.List, ast.Tuple, ast.ListComp, ast.GeneratorExp, ast.BinOp, ast.Compare, ast.Constant)):
+            return True
+        if isinstance(node, ast.Call):
+            try:
+                name = dotted(node.func)
+            except Shape:
+                return True
+            h = self.cfg.get("calls", {}).get(name)
+            if h is not None and h[0] == "id":
+                return name in FRESH_ID
+            if h is not None and h[0] == "fn" and h[1] == "":
+                return False
+            return True
+        return False
+
+    def note_binding(self, py, value_node, ty):
+        """ownership of the name `py` after `py = <value_node>` (ALIASING: the translation reads arrays, lists and records as
+        VALUES; `y = x` on such a value would make in-place operations through one name visible through the other)"""
+        if not mutable_ty(ty):
+            self.borrowed.discard(py)
+            return
+        if isinstance(value_node, ast.Name):
+            raise Shape("`%s = %s` makes a second name for a mutable value (aliasing is not modelled)" % (py, value_node.id))
+        if value_node is not None and self.value_is_fresh(value_node):
+            self.borrowed.discard(py)
+        else:
+            self.borrowed.add(py)
+
+    def need_owned(self, py, what):
+        if py in self.borrowed:
+            raise Shape("%s on `%s`, whose value is shared with the caller or another object (no copy was taken): in-place "
+                        "operations are read only on names that own their value" % (what, py))
+
     def set_state(self, fields, k):
         """record update of the current state variable"""
         s = self.state()
@@ -1066,9 +1231,12 @@ class StTr:
     def ret(self, s):
         r = self.cfg.get("ret")
         if r == "state":
-            if not (s.value is None or (isinstance(s.value, ast.Name) and s.value.id == "self")):
-                raise Shape("a method that returns something other than self")
-            return Ret(self.state().t)
+            # what the CALLER gets (`None` or `self`) is not part of the state: it is fixed per target (`returns_self`)
+            if s.value is None and not self.cfg.get("returns_self"):
+                return Ret(self.state().t)
+            if isinstance(s.value, ast.Name) and s.value.id == "self" and self.cfg.get("returns_self"):
+                return Ret(self.state().t)
+            raise Shape("`%s` in a method that returns %s" % (ast.unparse(s), "self" if self.cfg.get("returns_self") else "None"))
         if s.value is None:
             raise Shape("bare return")
         if isinstance(r, Ty):
@@ -1113,7 +1281,11 @@ class StTr:
                 if ty is not None and v.fn is None and v.ty != ty:
                     v = self.cast(v, ty)
                 return v
-            return self.under(val, lambda v: self.let(tgt.id, v, k))
+
+            def bind(v):
+                self.note_binding(tgt.id, value, v.ty if v.fn is None else Lst(A))
+                return self.let(tgt.id, v, k)
+            return self.under(val, bind)
         if isinstance(tgt, ast.Attribute) and isinstance(tgt.value, ast.Name) and tgt.value.id == "self":
             return self.attr_write(tgt.attr, value, k)
         if isinstance(tgt, (ast.Tuple, ast.List)) and all(isinstance(e, ast.Name) for e in tgt.elts):
@@ -1133,8 +1305,11 @@ class StTr:
                             if ty is None:
                                 raise Shape("type of the literal assigned to %s" % names[i])
                             v = self.cast(v, ty)
+                        self.note_binding(names[i], value.elts[i], v.ty if v.fn is None else Lst(A))
                         return self.let(names[i], v, lambda: go(i + 1))
                     return go(0)
+                if len(set(n for n in names if n != "_")) != len([n for n in names if n != "_"]):
+                    raise Shape("a name twice in one tuple target")
                 return self.under(lambda: [self.expr(e) for e in value.elts], then)
             if len(names) != 2:
                 raise Shape("unpacking into %d names" % len(names))
@@ -1149,7 +1324,10 @@ class StTr:
                         return k()
                     if names[i] == "_":
                         return go(i + 1)
+                    self.note_binding(names[i], None if not self.value_is_fresh(value) else value, cs[i].ty)
                     return self.let(names[i], cs[i], lambda: go(i + 1))
+                if names[0] == names[1] and names[0] != "_":
+                    raise Shape("a name twice in one tuple target")
                 return go(0)
             return self.under(lambda: self.expr(value), then2)
         if isinstance(tgt, ast.Subscript):
@@ -1166,12 +1344,13 @@ class StTr:
             base = self.env.get(py)
             if j not in (0, 1) or base is None or base.ty != LPA:
                 raise Shape("column assignment %s" % ast.unparse(tgt))
+            self.need_owned(py, "the column assignment `%s = …`" % ast.unparse(tgt))
 
             def then(v):
                 if v.fn is None or v.base.t != base.t:
                     raise Shape("column assignment from something that is not a column expression of the same array")
                 saved = set(self.used)
-                r = self.fresh("r")
+                r = self.fresh_tmp("r")
                 rv = V(r, PA)
                 new = self.cast(v.fn(rv), A)
                 self.used = saved
@@ -1186,6 +1365,7 @@ class StTr:
             base = self.env.get(py)
             if d is None or base is None or s.value not in d["keys"]:
                 raise Shape("item assignment %s" % ast.unparse(tgt))
+            self.need_owned(py, "the item assignment `%s = …`" % ast.unparse(tgt))
             i = d["keys"].index(s.value)
 
             def then(v):
@@ -1217,6 +1397,7 @@ class StTr:
                 acc = self.env.get(py)
                 if acc is None or acc.ty is None or acc.ty.k != "L":
                     raise Shape("append to %s, which is not a list" % py)
+                self.need_owned(py, "`.append`")
 
                 def then(v):
                     v = self.cast(v, acc.ty.a)
@@ -1228,6 +1409,7 @@ class StTr:
                 acc = self.env.get(py)
                 if acc is None or acc.ty is None or acc.ty.k != "L" or acc.ty.a.k != "L":
                     raise Shape("append to an entry of %s, which is not a list of lists" % py)
+                self.need_owned(py, "`[i].append`")
 
                 def then(iv):
                     i, v = iv
@@ -1256,11 +1438,15 @@ class StTr:
             g = self.expr(s.body[0].value.args[0])
             if g.ty is None or g.ty.k != "L":
                 raise Shape("next(...) of something that is not a generator over a list")
-            return self.opt_value("%s.head?" % paren(g, 100), g.ty.a, err, hint=py)
+            return self.opt_value("%s.head?" % paren(g, 100), g.ty.a, err, hint=py, py=True)
         return self.under(val, lambda v: self.bind_alias(py, v, k))
 
     def bind_alias(self, py, v, k):
         self.env[py] = v
+        if mutable_ty(v.ty):
+            self.borrowed.add(py)
+        else:
+            self.borrowed.discard(py)
         return k()
 
     # --- if
@@ -1329,7 +1515,7 @@ class StTr:
             if has_raise(node):
                 return Bind(node, var, k(), asc="Except %s %s" % (self.cfg["err"], rty.lean(True)))
             return LetNode(var, rty.lean(), node, k())
-        r = self.fresh("r")
+        r = self.fresh_tmp("r")
 
         def unpack(i):
             if i == len(names):
@@ -1361,8 +1547,11 @@ class StTr:
         return "%s_loop%s" % (self.cfg["lean"], "" if n == 0 else "_%d" % (n + 1))
 
     def sub_translator(self, carried):
-        sub = StTr(self.src, self.cls, self.cfg, self.aux, used=[f for f, _ in self.cfg.get("fparams", [])])
+        sub = StTr(self.src, self.cls, self.cfg, self.aux, used=[f for f, _ in self.cfg.get("fparams", [])] + lean_spellings(self.cfg))
         sub.live_end = set(carried)
+        sub.avoid = self.avoid
+        sub.unread = self.unread
+        sub.borrowed = set(self.borrowed)
         names = {}
         for py, v in self.env.items():
             if v.ty is None:
@@ -1383,7 +1572,12 @@ class StTr:
                            + ([iter_ty.lean(True)] if iter_ty is not None else []) + [res])
         rec = " ".join([name] + [f for f, _ in fps] + [names[py] for py in ro])
         lines = ["def %s%s : %s" % (name, sig, arrow)]
+        for c in carried:
+            if c not in outs and c not in sub_reads:
+                raise Shape("the loop re-assigns %s, which neither the loop nor what follows it reads (a dead store, or a store "
+                            "that outlives the translated statements)" % c)
         for pat, node in alts:
+            check_live(node, self.unread)
             lines.append("  | %s =>" % pat)
             lines += render(node, "    ", raises)
         text = "\n".join(lines).replace("@@REC@@", rec) + extra
@@ -1407,7 +1601,7 @@ class StTr:
             if raises:
                 return Bind(call_text, var, k())
             return Let(var, tys[0].lean(), call_text, k())
-        r = self.fresh("r")
+        r = self.fresh_tmp("r")
 
         def unpack(i):
             if i == len(carried):
@@ -1425,6 +1619,10 @@ class StTr:
         body = list(s.body)
         it = s.iter
         tnames = [n.id for n in ast.walk(s.target) if isinstance(n, ast.Name)]
+        for t in tnames:
+            if t != "_" and (t in self.env or tnames.count(t) > 1):
+                # Python leaves the last element in the loop variable after the loop; the recursion binds it per element only
+                raise Shape("the loop variable %s is already bound before the loop (or occurs twice in the target)" % t)
         assigned = self.assigned_names(body)
         carried = [py for py in self.env if py in assigned and py not in tnames and self.env[py].ty is not None]
         outs = [c for c in carried if c in live]
@@ -1449,7 +1647,7 @@ class StTr:
                 isinstance(e, (ast.List, ast.Tuple)) and len(e.elts) == 2 and all(isinstance(x, ast.Name) for x in e.elts) for e in t.elts))
             if not ok or lv.ty is None or lv.ty.k != "L" or lv.ty.a.k != "P":
                 raise Shape("loop over consecutive pairs outside `for [[a, b], [c, d]] in zip(l, l[1:])`")
-            p0, p1, tl = sub.fresh("p0"), sub.fresh("p1"), sub.fresh("tl_")
+            p0, p1, tl = sub.fresh_tmp("p0"), sub.fresh_tmp("p1"), sub.fresh_tmp("tl_")
             pts = [V(p0, lv.ty.a), V(p1, lv.ty.a)]
             binds = [(e.elts[j].id, comp(pts[i], j)) for i, e in enumerate(t.elts) for j in (0, 1) if e.elts[j].id != "_"]
 
@@ -1472,7 +1670,7 @@ class StTr:
                 cnt = V("%s.toNat" % paren(d, 100), N)
             if len(self.pre) != mark:
                 raise Shape("raising loop bounds")
-            rest_ = sub.fresh("rest_")
+            rest_ = sub.fresh_tmp("rest_")
             node = sub.block(body, rec_end(rest_))
             alts = [("%s, []" % cpat, base()), ("%s, _ :: %s" % (cpat, rest_), node)]
             iter_v, iter_ty = V("List.range %s" % atom(cnt.t), Lst(N), 90), Lst(N)
@@ -1480,8 +1678,12 @@ class StTr:
             lv = self.expr(it)
             if lv.ty is None or lv.ty.k != "L" or not isinstance(s.target, ast.Name):
                 raise Shape("loop outside the subset at line %d" % s.lineno)
-            x, rest_ = sub.fresh(s.target.id), sub.fresh("rest_")
+            x, rest_ = sub.fresh(s.target.id), sub.fresh_tmp("rest_")
             sub.env[s.target.id] = V(x, lv.ty.a)
+            if mutable_ty(lv.ty.a):
+                sub.borrowed.add(s.target.id)          # the loop variable is an element of the list, not a copy
+            else:
+                sub.borrowed.discard(s.target.id)
             node = sub.block(body, rec_end(rest_))
             alts = [("%s, []" % cpat, base()), ("%s, %s :: %s" % (cpat, x, rest_), node)]
             iter_v, iter_ty = lv, lv.ty
@@ -1519,7 +1721,7 @@ class StTr:
                         sub.env[c] = V("[]", ty, shape=("nil",))
                         pats.append("[]")
                     else:
-                        h, tl = sub.fresh(c + "_0"), sub.fresh(c + "_tl")
+                        h, tl = sub.fresh_tmp(c + "_0"), sub.fresh_tmp(c + "_tl")
                         sub.env[c] = V("(%s :: %s)" % (h, tl), ty, shape=("cons", V(h, ty.a), V(tl, ty)))
                         pats.append("%s :: %s" % (h, tl))
                 else:
@@ -1575,6 +1777,7 @@ class MatTr:
                     "M": "M", "N": "N"}
         self.quad = {}
         self.dname = None
+        self.after_names = set()            # names that occur in the function after the region
 
     def dim(self, node):
         t = ast.unparse(node)
@@ -1738,19 +1941,35 @@ class MatTr:
             return Sym("m22", ("2", "2"), rows)
         raise Shape("internal: matrix handler %s" % h[0])
 
+    def bind(self, name, value_node, v):
+        """`name = <value_node>` in the region.  `M`, `N` are the dimensions (resolved by spelling), what the code AFTER the
+        region reads (`M`, `N`, `matching`, `return_matching`, …) is not the region's to rebind -- the matrix itself excepted --
+        and a second name for an array (`X = UR`) would make `np.fill_diagonal` through one name invisible through the other"""
+        if name in ("M", "N"):
+            raise Shape("the region assigns the dimension %s" % name)
+        if name in self.after_names and name != self.cfg["matrix"]:
+            raise Shape("the region assigns %s, which the code after the region reads" % name)
+        if isinstance(value_node, ast.Name) and isinstance(v, Sym):
+            raise Shape("`%s = %s` makes a second name for an array (aliasing is not modelled)" % (name, value_node.id))
+        self.env[name] = v
+
     def stmt(self, s):
         if isinstance(s, ast.Assign) and len(s.targets) == 1:
             t = s.targets[0]
             if isinstance(t, ast.Name):
-                self.env[t.id] = self.ev(s.value)
+                self.bind(t.id, s.value, self.ev(s.value))
                 if isinstance(self.env[t.id], Sym) and self.env[t.id].kind == "zeros" and self.env[t.id].dims == ("MN", "MN"):
                     self.dname, self.quad = t.id, {}
                 return
             if isinstance(t, ast.Tuple) and isinstance(s.value, ast.Tuple) and len(t.elts) == len(s.value.elts) \
                     and all(isinstance(e, ast.Name) for e in t.elts):
+                if len({e.id for e in t.elts}) != len(t.elts):
+                    raise Shape("a name twice in one tuple target")
                 vals = [self.ev(e) for e in s.value.elts]
-                for e, v in zip(t.elts, vals):
-                    self.env[e.id] = v
+                for e, vn, v in zip(t.elts, s.value.elts, vals):
+                    self.bind(e.id, vn, v)
+                    if isinstance(v, Sym) and v.kind == "zeros" and v.dims == ("MN", "MN"):
+                        raise Shape("the matrix is built inside a tuple assignment")
                 return
             if isinstance(t, ast.Subscript) and isinstance(t.value, ast.Name) and t.value.id == self.dname \
                     and isinstance(t.slice, ast.Tuple) and len(t.slice.elts) == 2:
@@ -1772,6 +1991,8 @@ class MatTr:
                 and len(s.value.args) == 2 and not s.value.keywords and isinstance(s.value.args[0], ast.Name):
             nm = s.value.args[0].id
             a = self.env.get(nm)
+            if nm in self.after_names and nm != self.cfg["matrix"]:
+                raise Shape("the region updates %s in place, which the code after the region reads" % nm)
             if nm == self.dname and ast.unparse(s.value.args[1]) == "0" and not self.quad:
                 return                                      # np.fill_diagonal(D, 0) on the fresh zero matrix
             v = self.ev(s.value.args[1])
@@ -1834,6 +2055,13 @@ def translate_matrix(src, fns, cfg):
     check_signature(cfg, fn)
     stmts, skeleton, after = find_region(cfg, fn)
     mt = MatTr(src, cfg)
+    body = strip_doc(fn.body)
+    pos = [i for i, b in enumerate(body) if b is stmts[-1]]
+    if not pos:
+        raise Shape("the matrix region of %s is not at the top level of the function" % fn.name)
+    # everything that occurs after the region (the pinned `if <flag>:` / `return`, what the matching engine translates): the
+    # region's assignments are not read by either pin, so they must not reach those names
+    mt.after_names = names_outside(ast.Module(body=body[pos[0] + 1:], type_ignores=[]), [])
     for st in stmts:
         mt.stmt(st)
     if mt.dname != cfg["matrix"]:
@@ -1947,17 +2175,32 @@ def translate(src, fns, classes, cfg):
         return {"defs": [], "skeleton": skeleton, "skeleton_after": None, "defaults": None, "booldefaults": None}
     cls = classes.get(cfg["func"].split(".")[0]) if "." in cfg["func"] else None
     aux = []
-    tr = StTr(src, cls, cfg, aux, used=[f for f, _ in cfg.get("fparams", [])])
+    tr = StTr(src, cls, cfg, aux, used=[f for f, _ in cfg.get("fparams", [])] + lean_spellings(cfg))
+    tr.avoid = function_identifiers(fn)
     binders = list(cfg.get("fparams", []))
     for py, ty in cfg["params"]:
         lean = tr.fresh(py)
         tr.env[py] = V(lean, ty)
         binders.append((lean, ty.lean()))
+        # a parameter's array / list / record belongs to the caller -- except `self` (the state the method is about) and the
+        # declared in-out name of a region (`W` of the ramp loops), whose in-place updates ARE the region's result
+        if mutable_ty(ty) and py != "self" and py != cfg.get("ret_name"):
+            tr.borrowed.add(py)
     raises = cfg.get("raises", False)
     tr.live_end = {"self"} if cfg.get("ret") == "state" else ({cfg["ret_name"]} if cfg.get("ret_name") else set())
+    if cfg.get("region") == "range_in":
+        # the region stands in the middle of code that is only pinned as text: what it stores to a name that also occurs
+        # OUTSIDE it (a parameter of the region, a name a later statement / another iteration of the enclosing loop / the pinned
+        # `return` reads) would reach that code, which the definition does not model -- only the declared result leaves it
+        outside = names_outside(fn, stmts)
+        for nm in stored_names(stmts) + [n for n in tr.assigned_names(stmts)]:
+            if nm in outside and nm not in (cfg.get("ret_name"), "_"):
+                raise Shape("the region assigns %s, which also occurs outside the region and is not its declared result" % nm)
 
     def end():
         if cfg.get("ret") == "state":
+            if cfg.get("returns_self"):
+                raise Shape("a path falls off the end of a method that returns self")
             return Ret(tr.state().t)
         if cfg.get("ret_name"):
             v = tr.env.get(cfg["ret_name"])
@@ -1969,6 +2212,8 @@ def translate(src, fns, classes, cfg):
     node = tr.block(list(stmts), end)
     if tr.pre:
         raise Shape("internal: pending hoists")
+    check_live(node, tr.unread)
+    settle_unread(tr.unread, cfg)
     if has_raise(node) and not raises:
         raise Shape("the source can raise here but the model's definition has no error result")
     groups = []
@@ -2031,7 +2276,15 @@ HEADER = (
     "  * `np.inf`/`-np.inf` as the start of a running min/max is `none`, comparisons with it are `SrcLib.ltTop/gtBot`;\n"
     "  * Python `int`s are `Int`, lengths/indices `Nat` (a difference of naturals is an `Int`), an int in float arithmetic is cast;\n"
     "  * `a > b` is written `b < a`; in the matrix regions `0.5 * e` is `e / 2` and `e ** 2` is `e * e`; NumPy/Python library\n"
-    "    calls are the model helpers / parameters named in the text.\n"
+    "    calls are the model helpers / parameters named in the text;\n"
+    "  * arrays, lists and records are VALUES: a second name for one (`y = x`) is refused, and in-place operations (`X[:, 1] = …`,\n"
+    "    `.append`, item assignment, `np.fill_diagonal`) are read only on a name that owns its value (`np.copy(x)` gives one and is\n"
+    "    otherwise the identity), never on a parameter, a loop variable or an element;\n"
+    "  * the obligations hold up to definitional unfolding, which erases a `let` that nothing reads: every generated binding must be\n"
+    "    read (reviewed exceptions are listed in the target's section), a region inside pinned text may assign, among the names that\n"
+    "    also occur outside it, only its declared result, the matrix regions may not assign `M`, `N` or what the code after them reads;\n"
+    "  * `return self` versus `None` of a state method is fixed per target; binders never collide with an identifier of the Python\n"
+    "    function or with a helper the text mentions.\n"
     "A source outside the subset gives `def srcShape_<f> : Bool := false`, and `srcShape_<f>_recognised` fails.\n"
     "-/\n"
     "set_option linter.unusedVariables false\n"
@@ -2076,8 +2329,11 @@ def render_file(key, root):
         f = cfg["lean"]
         path = cfg.get("pyfile", py)
         src, fns, classes, err, tree = load(path)
-        o.append("/-! ### `%s`  (from `%s` of %s%s) -/" % (f, cfg["func"], path,
-                 "" if cfg.get("region", "function") == "function" else ", region: " + cfg["region"].replace("_", " ")))
+        o.append("/-! ### `%s`  (from `%s` of %s%s)%s%s -/" % (
+            f, cfg["func"], path, "" if cfg.get("region", "function") == "function" else ", region: " + cfg["region"].replace("_", " "),
+            ("\nreviewed list of the bindings below that nothing reads (stores that are dead in the source as well; any other unread "
+             "binding is a Shape error): %s" % ", ".join("`%s`" % x for x in cfg["unread_ok"])) if cfg.get("unread_ok") else "",
+            "\nthe method ends in `return self` on every path (what the caller gets is fixed per target)" if cfg.get("returns_self") else ""))
         o.append("section")
         o.append(("variable {α : Type} " + cfg["variables"]).rstrip() + "\n")
         res = None
@@ -2243,6 +2499,7 @@ TARGETS = [
     T(IMG, func="PersistenceImager.fit", lean="fit", pyparams=["self", "pers_dgms", "skew"],
       fparams=[CEIL], params=[("self", IMG_STATE_TY), ("pers_dgms", Named("Input α")), ("skew", B)],
       raises=True, ret="state", result="Except Err (State α)", booldefaults=[("skew", True)],
+      unread_ok=["singular"],       # `pers_dgms, singular = self._ensure_iterable(pers_dgms)`: `fit` does not use the flag
       obligations=[("fit_loop_eq_scan", "(skew : Bool) (ds : List (Dgm α)) (e : Ext α)",
                     "fit_loop skew e.minB e.maxB e.minP e.maxP ds =\n"
                     "      (scan skew e ds).map (fun e => (e.minB, e.maxB, e.minP, e.maxP))",
@@ -2315,6 +2572,7 @@ TARGETS += [
                     "overrides `if not self._start_fixed: params[\"start\"] = None`, `if not self._stop_fixed: …`")]),
     T(LS, func="PersistenceLandscaper.fit", lean="fit", pyparams=["self", "X", "y"],
       fparams=[FIN], params=[("self", LS_STATE_TY), ("X", Lst(LPA))], raises=True, ret="state", result="Except LErr (LState α)",
+      returns_self=True,
       obligations=[("src_fit_eq_model", "(fin : α → Bool) (s : LState α) (X : List (Dgm α))", "fit fin s X = lfit fin s X",
                     "by\n  unfold fit lfit\n  cases pyIndex X s.homDeg with\n  | none => rfl\n  | some d =>\n"
                     "    rcases s with ⟨st, sp, sf, pf, n, fl, hd⟩\n"
@@ -2377,6 +2635,7 @@ TARGETS += [
                     "on `[]` the source raises IndexError (`l[0]`)")]),
     T(PLA, func="sum_slopes", lean="sum_slopes", pyparams=["a", "b"], params=[("a", LPA), ("b", LPA)],
       ret=LPA, result="List (α × α)", while_split=["a", "b"],
+      unread_ok=["bx"],             # third branch (`ax == bx`): `bx, bm = b[0]` and then `result.append([ax, am + bm])`
       obligations=[("sum_slopes_loop_eq", "(am bm : α) (a b : List (α × α)) (res : List (α × α))",
                     "sum_slopes_loop a b res am bm = res ++ sumSlopes am bm a b",
                     "by\n  fun_induction sumSlopes am bm a b generalizing res <;>\n    simp_all [sum_slopes_loop]",
